@@ -1,12 +1,13 @@
 #!/bin/bash
 # run_mutant.sh <seeded-dir-name> <budget_s> <PROP>...: apply a seeded change to /repo, run the given checks, undo it.
 set -u
-D=/verif/seeded/$1; B=$2; shift 2
+V=$(cd "$(dirname "$0")/.." && pwd)
+D=$V/seeded/$1; B=$2; shift 2
 cd /repo || exit 2
 if [ -n "$(git status --porcelain)" ]; then echo "/repo not clean"; exit 2; fi
 git apply $D/patch.diff || { echo "patch does not apply"; exit 2; }
 trap 'git -C /repo checkout -- . ; git -C /repo clean -fdq' EXIT
-cd /verif
+cd $V
 for P in "$@"; do
   out=$(VERIF_SEED=${VERIF_SEED:-1} ./check $P --budget $B 2>&1)
   rc=$?
